@@ -18,7 +18,7 @@ ASSUMPTIONS = [
 ]
 
 FAMILIES = ["f_chain", "f_subplan", "f_glob", "f_amend", "f_env", "f_vol", "f_redefine",
-            "f_optional", "f_hold"]
+            "f_optional", "f_hold", "f_dynout"]
 CFG = {"njob": 2}
 
 
@@ -68,6 +68,13 @@ def compare(last, scratch):
             return [("returncode", {"incremental": last.rc_class, "scratch": scratch.rc_class,
                                     "reports": [r[:2] for r in last.reports if r[0] in ("FAIL", "WARNING", "ERROR")]})]
         a, b = _files_only(last.fs), _files_only(scratch.fs)
+        # a former output that an active step still names as an input is kept on purpose (the
+        # exception of C07); it is neither a declared output nor part of the workflow's relations
+        used = {p for s, ins in last.db_inputs.items() if not last.db_steps.get(s, {}).get("detached")
+                for p, _ in ins}
+        declared = {p for outs in last.db_outputs.values() for p in outs}
+        for k in [k for k in a if k not in b and k in used and k not in declared]:
+            del a[k]
         if a != b:
             out.append(("files", {k: (a.get(k), b.get(k)) for k in sorted(set(a) | set(b))
                                   if a.get(k) != b.get(k)}))
